@@ -653,6 +653,12 @@ func determinismRun(args []string, verbose bool) int {
 	}
 	sort.Strings(ps)
 	seeds := []string{"1", "2", "3", "5", "8", "13", "21", "34"}
+	if k, err := strconv.Atoi(os.Getenv("VERIF_DET_SEEDS")); err == nil && k > 0 {
+		seeds = nil
+		for i := 1; i <= k; i++ {
+			seeds = append(seeds, fmt.Sprint(i*7919+1))
+		}
+	}
 	n := "12"
 	type job struct{ prop, seed, gmp string }
 	results := map[job]string{}
